@@ -632,10 +632,6 @@ def create_final_construct_fn(scope: cpp_gen.Struct, provides_ports: CppPorts,
 
     fnc.contents = TextBlock([
 
-        [Comment(f'Call final construct on multiclient {plural("port", final_construct_calls)}'),
-         final_construct_calls,
-         BLANK_LINE] if final_construct_calls else None,
-
         Comment('Check the bindings of all boundary ports'),
         [f'{p.accessor_target}.check_bindings();' for p in all_pp if
          not p.dzn_port_itf.multiclient],
@@ -647,6 +643,12 @@ def create_final_construct_fn(scope: cpp_gen.Struct, provides_ports: CppPorts,
                 'of all encapsulee ports'),
         f'{encapsulee_mv}.dzn_meta.parent = {param.name};',
         f'{encapsulee_mv}.check_bindings();',
+
+        [BLANK_LINE,
+         Comment(f'Call final construct on multiclient {plural("port", final_construct_calls)} '
+                 'last: it closes the registration of\nclients, which must not happen when one '
+                 'of the checks above has failed'),
+         final_construct_calls] if final_construct_calls else None,
     ])
     return fnc
 
